@@ -1,4 +1,5 @@
 import TakVerif.Proofs.SearchAnalyze
+import TakVerif.Proofs.SearchTable
 
 /-! A small concrete game (subtraction game: take 1 or 2 from a heap, whoever cannot move has lost)
 satisfying every hypothesis of the search theorems, used for the non-vacuity examples. -/
@@ -7,27 +8,27 @@ open Tak (Err)
 
 def legal (p m : Nat) : Bool := (m == 1 || m == 2) && decide (m ≤ p)
 
-/-- heap game; the mover facing an empty heap has lost -/
-def game : Game Nat Nat where
-  over p := p == 0
-  eval p := if p == 0 then -Facts.winBase else 0
-  apply p m := if legal p m then .ok (p - m) else .error (.illegal "not 1 or 2 within the heap")
+/-- heap game on heaps of fewer than 32 stones; the mover facing an empty heap has lost -/
+def game : Game (Fin 32) Nat where
+  over p := p.val == 0
+  eval p := if p.val == 0 then -Facts.winBase else 0
+  apply p m := if legal p.val m then .ok ⟨p.val - m, by omega⟩ else .error (.illegal "not 1 or 2 within the heap")
   allMoves _ := [1, 2]
-  hash p := BitVec.ofNat 64 (p + 1)
+  hash p := BitVec.ofNat 64 (p.val + 1)
   moveEq a b := a == b
   zeroMove := 0
   passMove := 0
   isPass m := m == 0
   nullOK _ := false
   reduceSlide _ _ := .ok false
-  moveNumber p := p
+  moveNumber p := p.val
   symHashes _ := []
 
 theorem gameOK : GameOK game where
   complete := by
     intro p m c h
     simp only [game] at h ⊢
-    by_cases hl : legal p m = true
+    by_cases hl : legal p.val m = true
     · simp only [hl, if_true, Except.ok.injEq] at h
       have hm : m = 1 ∨ m = 2 := by
         unfold legal at hl; simp only [Bool.and_eq_true, Bool.or_eq_true, beq_iff_eq] at hl; exact hl.1
@@ -49,12 +50,12 @@ theorem evalBounded : EvalBounded game := by
   simp only [game, Facts.minEval, Facts.maxEval, Facts.winBase]
   split <;> omega
 
-theorem kids_ne (p : Nat) (hp : 0 < p) : kids game p ≠ [] := by
-  have h1 : game.apply p 1 = .ok (p - 1) := by
+theorem kids_ne (p : Fin 32) (hp : 0 < p.val) : kids game p ≠ [] := by
+  have h1 : game.apply p 1 = .ok ⟨p.val - 1, by omega⟩ := by
     simp only [game, legal]
-    have : decide (1 ≤ p) = true := decide_eq_true (by omega)
+    have : decide (1 ≤ p.val) = true := decide_eq_true (by omega)
     simp [this]
-  have : (1, p - 1) ∈ kids game p := mem_kids.mpr ⟨by simp [game], h1⟩
+  have : (1, (⟨p.val - 1, by omega⟩ : Fin 32)) ∈ kids game p := mem_kids.mpr ⟨by simp [game], h1⟩
   exact List.ne_nil_of_mem this
 
 theorem live : ∀ d p, Live game d p := by
@@ -64,9 +65,32 @@ theorem live : ∀ d p, Live game d p := by
   | succ d ih =>
     intro p
     simp only [Live]
-    by_cases hp : p = 0
+    by_cases hp : p.val = 0
     · left; simp [game, hp]
     · right; exact ⟨kids_ne p (by omega), fun c _ => ih c.2⟩
+
+theorem evalOK : EvalOK game where
+  inside := by
+    intro p hov
+    simp only [game, beq_eq_false_iff_ne, ne_eq] at hov
+    simp only [game, Facts.winThreshold]
+    have : (p.val == 0) = false := by simpa using hov
+    simp only [this, Bool.false_eq_true, if_false]
+    omega
+  live := by
+    intro p hov
+    simp only [game, beq_eq_false_iff_ne, ne_eq] at hov
+    exact kids_ne p (by omega)
+
+theorem hashInj : HashInj game := by
+  intro p q h
+  simp only [game] at h
+  have := congrArg BitVec.toNat h
+  simp only [BitVec.toNat_ofNat] at this
+  have hp := p.isLt
+  have hq := q.isLt
+  apply Fin.ext
+  omega
 
 def cfg : Cfg := { depth := 4, opts := { noSort := true, noNullMove := true, noReduceSlides := true } }
 
